@@ -71,7 +71,7 @@ func c12(c *wk.Ctx) {
 		if c.Mine(idx) {
 			r := c.Rand(idx)
 			s := c12session(r)
-			kind := []string{"absolute", "relative", "bare", "dot-relative", "dotdot", "parent-relative", "odd-name", "hidden", "symlinked-dir", "long-name"}[k%10]
+			kind := []string{"absolute", "relative", "bare", "dot-relative", "dotdot", "parent-relative", "odd-name", "hidden", "symlinked-dir", "long-name", "symlinked-file"}[k%11]
 			var path string
 			switch kind {
 			case "dotdot":
@@ -85,6 +85,11 @@ func c12(c *wk.Ctx) {
 			case "symlinked-dir":
 				os.Symlink(filepath.Join(cwd, "sub"), filepath.Join(base, "lnk"))
 				path = filepath.Join(base, "lnk", fmt.Sprintf("l%d.json", idx))
+			case "symlinked-file":
+				// the path's last component is a link to a regular file elsewhere (dotfile managers, mounted secrets)
+				target := filepath.Join(cwd, "sub", fmt.Sprintf("target%d.json", idx))
+				path = filepath.Join(base, fmt.Sprintf("link%d.json", idx))
+				os.Symlink(target, path) // dangles until the first store
 			case "long-name":
 				path = filepath.Join(base, strings.Repeat("n", 200)+fmt.Sprintf("%d.json", idx))
 			case "absolute":
@@ -119,6 +124,29 @@ func c12(c *wk.Ctx) {
 				if _, serr := os.Stat(p); serr != nil {
 					c.Viol("C12", idx, "nodir/store-reported-success-without-file", "Store into a non-existent directory returned nil but no file exists", p)
 				}
+			}
+			// the directory appears later (the application creates it after the first failure): from then on the path
+			// is one "whose directory exists", for the loader that failed before as for any other
+			if k%2 == 0 {
+				old := session.NewFromFile(p)
+				wk.Guard(func() { old.Store(c12session(r)) })
+				wk.Guard(func() { old.Load() })
+				os.MkdirAll(filepath.Dir(p), 0o755)
+				s2 := c12session(r)
+				var e2 error
+				var g2 *session.Session
+				pan2, pm2, st2 := wk.Guard(func() {
+					if e2 = old.Store(s2); e2 == nil {
+						g2, e2 = old.Load()
+					}
+				})
+				c.Count("nodir.directory_created_later", 1)
+				if pan2 {
+					c.Viol("C12", idx, "nodir/panic/"+st2, pm2, p)
+				} else if e2 != nil || !sessEq(g2, s2) {
+					c.Viol("C12", idx, "nodir/loader-unusable-after-directory-appeared", fmt.Sprintf("a loader whose first store failed for want of the directory still fails after the directory was created: err=%v", e2), p)
+				}
+				os.RemoveAll(filepath.Join(base, fmt.Sprintf("missing-dir-%d", k)))
 			}
 			var got *session.Session
 			pan, pm, st = wk.Guard(func() { got, err = session.NewFromFile(p).Load() })
